@@ -386,6 +386,9 @@ struct Model
 {
     counts: HashMap<Key, u32>,
     named_exists: HashMap<(u8, F), bool>,
+    /// named keys on which a re-entrant `named_syscall` ran while the cached system was out (it leaves its own system in
+    /// the map until the outer call puts the cached one back); never cleared (conservative)
+    overwritten: Vec<(u8, F)>,
     /// per spawned slot: (function, alive)
     slots: Vec<(F, bool)>,
     running: Vec<Key>,
@@ -430,10 +433,18 @@ impl Model
             Target::Once(_) => unreachable!(),
             Target::SyscallV(f) => { self.hit("C17:with_validation"); (Key::Syscall(f), f) }
             Target::Syscall(f) => (Key::Syscall(f), f),
-            Target::Named(n, f) => { self.named_exists.insert((n, f), true); (Key::Named(n, f), f) }
+            Target::Named(n, f) =>
+            {
+                self.named_exists.insert((n, f), true);
+                if self.running.contains(&Key::Named(n, f)) && !self.overwritten.contains(&(n, f)) { self.overwritten.push((n, f)); }
+                (Key::Named(n, f), f)
+            }
             Target::NamedDirect(n, f) =>
             {
                 if !self.named_exists.get(&(n, f)).copied().unwrap_or(false) { self.hit("C17:direct_unknown_name"); return Err(()); }
+                // the cached system is out while its key runs: the direct call finds nothing, runs nothing and leaves
+                // the key's state alone (unless a re-entrant `named_syscall` left its own system there, see `reenters`)
+                if self.running.contains(&Key::Named(n, f)) && !self.overwritten.contains(&(n, f)) { self.hit("C17:direct_on_running_key"); return Err(()); }
                 (Key::Named(n, f), f)
             }
             Target::Spawned(slot) =>
@@ -484,9 +495,11 @@ impl Model
     }
 }
 
-/// `named_syscall_direct` on a key that is currently running is never generated (whether it finds a system depends
-/// on what a nested call left behind); re-entrant `syscall` / `named_syscall` are generated (documented behaviour).
-fn reenters(stack: &[Target], target: Target) -> bool
+/// `named_syscall_direct` on a key that is currently running is generated only while no re-entrant `named_syscall` ran
+/// on that key earlier in the history (`overwritten`; afterwards whether it finds a system depends on what that nested
+/// call left behind): it must return an error, run nothing and leave the key's state alone. Re-entrant `syscall` /
+/// `named_syscall` are generated (documented behaviour).
+fn reenters(stack: &[Target], target: Target, overwritten: &[(u8, F)]) -> bool
 {
     let key = |t: Target| match t { Target::Named(n, f) | Target::NamedDirect(n, f) => Some((n, f)), _ => None };
     // `syscall_with_validation` on a running syscall key: whether the validation function runs again depends on
@@ -494,7 +507,7 @@ fn reenters(stack: &[Target], target: Target) -> bool
     let skey = |t: Target| match t { Target::Syscall(f) | Target::SyscallV(f) => Some(f), _ => None };
     match target
     {
-        Target::NamedDirect(..) => stack.iter().any(|s| key(*s) == key(target)),
+        Target::NamedDirect(n, f) => stack.iter().any(|s| key(*s) == key(target)) && overwritten.contains(&(n, f)),
         Target::SyscallV(_) => stack.iter().any(|s| skey(*s) == skey(target)),
         _ => false,
     }
@@ -784,6 +797,8 @@ struct Dec<'a>
 {
     u: Unstructured<'a>,
     next_x: u32,
+    /// generation order is execution order (body calls, then queued calls, depth first)
+    overwritten: Vec<(u8, F)>,
 }
 
 impl<'a> Dec<'a>
@@ -808,10 +823,20 @@ impl<'a> Dec<'a>
     fn spec(&mut self, stack: &mut Vec<Target>, depth: u32) -> Option<CallSpec>
     {
         let mut target = self.target();
+        // one nested / queued call in eight goes straight back to the named key that is running right now
+        if let Some(Target::Named(n, f) | Target::NamedDirect(n, f)) = stack.last().copied()
+        {
+            if self.byte() % 8 == 0 { target = Target::NamedDirect(n, f); }
+        }
         // never re-enter a running syscall / named key (unsupported by the documentation)
         let mut tries = 0;
-        while reenters(stack, target) && tries < 4 { target = self.target(); tries += 1; }
-        if reenters(stack, target) { return None; }
+        while reenters(stack, target, &self.overwritten) && tries < 4 { target = self.target(); tries += 1; }
+        if reenters(stack, target, &self.overwritten) { return None; }
+        if let Target::Named(n, f) = target
+        {
+            let running = stack.iter().any(|s| matches!(*s, Target::Named(m, g) | Target::NamedDirect(m, g) if m == n && g == f));
+            if running && !self.overwritten.contains(&(n, f)) { self.overwritten.push((n, f)); }
+        }
         self.next_x += 1;
         let x = self.next_x;
         let kill = if self.byte() % 8 == 0 { Some(self.below(4) as u8) } else { None };
@@ -831,7 +856,7 @@ impl<'a> Dec<'a>
 
 pub fn decode(bytes: &[u8], max_ops: usize) -> SysCase
 {
-    let mut d = Dec{ u: Unstructured::new(bytes), next_x: 0 };
+    let mut d = Dec{ u: Unstructured::new(bytes), next_x: 0, overwritten: Vec::new() };
     let n = d.below(max_ops + 1);
     let mut case = SysCase::default();
     for _ in 0..n
